@@ -12,6 +12,8 @@ from harness.lib.common import Check
 
 
 def main() -> int:
+    import logging
+    logging.disable(logging.ERROR)        # the library logs every injected failure; keep the check output readable
     ap = argparse.ArgumentParser()
     ap.add_argument("pid")
     ap.add_argument("tier", nargs="?", default=os.environ.get("VERIF_TIER", "quick"), choices=["quick", "thorough"])
